@@ -119,7 +119,30 @@ def witness_on_real_code():
             "missed_by_the_real_function": len(idx) == 0}
 
 
-def check(ctx, broken):
+ADAPTIVE_THEOREMS = ["Matid.Props.Adaptive." + t for t in ("measured_plus", "measured_minus", "adaptive_close")]
+
+
+def adaptive_corr(ctx, records):
+    """adaptive cell vectors recorded in real runs (sbc_common.ProtoRecorder.adaptive) vs the Lean model (`adaptcell`)"""
+    import sbc_common as SC
+    from fractions import Fraction as Fr
+    if not records:
+        return []
+    lines = [SC.adaptive_line(r) for r in records]
+    mism = []
+    for r, o, al in zip(records, common.driver(lines), lines):
+        ctx.case(("adaptcell", al), nontrivial=r["add"] is not None or r["sub"] is not None)
+        ctx.count("adaptive_" + ("plus" if r["add"] is not None else "minus" if r["sub"] is not None else "span"))
+        try:
+            ok = np.allclose([float(Fr(x)) for x in o.split(",")], r["real"], atol=1e-9)
+        except Exception:  # noqa
+            ok = False
+        if not ok:
+            mism.append({"what": "adaptive cell vector of _find_proto_cell_3d", "op": al[:400], "model": o[:120], "real": [float(x) for x in r["real"]]})
+    return mism
+
+
+def check(ctx, broken, adaptive_records=None):
     """proof + correspondence of the finder helpers; appends to `broken`"""
     try:
         ctx.coverage["omitted_corner_witness_on_real_code"] = witness_on_real_code()
@@ -128,6 +151,17 @@ def check(ctx, broken):
     ok, info = common.prove(ctx, "MatidProps.Finder", THEOREMS)
     if not ok:
         broken.append(("finder-helpers-proof", info))
+    if adaptive_records is not None:
+        ok, info = common.prove(ctx, "MatidProps.AdaptiveProps", ADAPTIVE_THEOREMS)
+        if not ok:
+            broken.append(("adaptive-cell-proof", info))
+        try:
+            am = adaptive_corr(ctx, adaptive_records)
+        except common.DriverError as e:
+            broken.append(("driver", {"error": str(e)[-800:]}))
+            am = []
+        if am:
+            broken.append(("adaptive-cell-correspondence", {"function": "PeriodicFinder._find_proto_cell_3d (cell vectors)", "count": len(am), "mismatches": am[:3]}))
     try:
         mism = corr_within_basis(ctx, ctx.n(400, 20000))
     except common.DriverError as e:
